@@ -6,7 +6,7 @@ COQ = '/verif/coq'
 HEADER = '''From Coq Require Import ZArith List Bool Arith Lia.
 From QV Require Import Core.Bits Core.Pauli Core.Symp Core.Code Core.Span Core.Rank Core.Dist Core.DistCSS Generated.LatticeArith.
 From QV Require Import Lattice.Basic Lattice.Planar Lattice.Toric Lattice.PlanarBounded Lattice.ToricBounded Lattice.PlanarAll Lattice.ToricAll Lattice.PlanarRankAll Lattice.ToricPathWeightAll Lattice.PlanarDistAll Lattice.ToricRankAll Lattice.ToricDistAll.
-From QV Require Import Lattice.RotPlanar Lattice.RotToric Lattice.Color Lattice.RotPlanarAll Lattice.RotPlanarBounded Lattice.RotToricBounded Lattice.ColorBounded Lattice.RotPlanarValidAll Lattice.RotToricValidAll Lattice.RotToricPathAll Lattice.ColorValidAll.
+From QV Require Import Lattice.RotPlanar Lattice.RotToric Lattice.Color Lattice.RotPlanarAll Lattice.RotPlanarBounded Lattice.RotToricBounded Lattice.ColorBounded Lattice.RotPlanarValidAll Lattice.RotToricValidAll Lattice.RotToricPathAll Lattice.ColorValidAll Lattice.RotPlanarRankAll Lattice.RotPlanarDistAll Lattice.RotToricRankAll Lattice.RotToricDistAll Lattice.RotToricPathWeightAll.
 Import ListNotations.
 Open Scope Z_scope.
 '''
@@ -37,6 +37,8 @@ SPEC = {
    ('rottoric_valid_all', 'ROTATED TORIC, ALL EVEN SIZES >= 2: validate = Ok'), ('rottoric_valid_all_conditions', ''),
    ('color_valid_all', 'COLOUR 6.6.6, ALL ODD SIZES >= 3: validate = Ok'), ('color_valid_all_conditions', ''),
    ('color_flatten_injective_all', 'colour, all sizes: flatten injective on in-bounds sites, range within [0,n)'), ('color_flatten_range_all', ''),
+   ('rotplanar_rank_is_all', 'ROTATED PLANAR, ALL SIZES: rank n-1, with the two logicals n+1'), ('rotplanar_rank_nkd', ''), ('rotplanar_stabilizers_count_all', ''), ('rotplanar_valid_shape_all', 'rotated planar, all sizes: validate = Ok and n, k = matrix shapes'),
+   ('rottoric_rank_is_all', 'ROTATED TORIC, ALL EVEN SIZES: rank n-2, with the four logicals n+2'), ('rottoric_rank_all', ''), ('rottoric_valid_shape_all', ''),
    ('rotplanar_valid_upto_9', 'rotated planar 3..9'), ('rotplanar_shapes_upto_9', ''), ('rotplanar_rank_upto_9', ''),
    ('rp_flatten_range', 'rotated planar, ALL SIZES: flatten bijection'), ('rp_flatten_injective', ''), ('rp_flatten_surjective', ''),
    ('rp_ctor_ok_iff', 'constructor acceptance = documented range (all argument values)'), ('rp_ctor_type_error_iff', ''),
@@ -63,6 +65,8 @@ SPEC = {
    ('toric_distance_lower_partial', ''), ('toric_anticommute_z1_weight', ''), ('toric_anticommute_x1_weight', ''), ('toric_logical_weights', ''),
    ('planar_distance_upto5_spec', 'planar <= 5x5 except 5x5: is_distance (exhaustive CSS search in the kernel)'),
    ('toric_distance_upto5_spec', 'toric <= 5x5 except 5x5'),
+   ('rotplanar_is_distance_all', 'ROTATED PLANAR, ALL SIZES: min(rows, cols) IS the minimum distance'), ('rotplanar_is_distance_nkd', ''), ('rotplanar_distance_lower_all', ''), ('rotplanar_centralizer', 'rotated planar, all sizes: centralizer lemma'), ('rotplanar_logicals_nontrivial', ''),
+   ('rottoric_is_distance_all', 'ROTATED TORIC, ALL EVEN SIZES: min(rows, cols) IS the minimum distance'), ('rottoric_is_distance_nkd', ''), ('rottoric_distance_lower_all', ''), ('rottoric_centralizer', 'rotated toric, all sizes: centralizer lemma'),
    ('rotplanar_distance_upto_6x5', 'rotated planar 3..6 with min <= 5'), ('rp_logical_weights_all', 'rotated planar, all sizes: lighter logical weighs d'),
    ('rottoric_distance_small', 'rotated toric small sizes'), ('rt_logical_weights_all', ''),
    ('color_distance_upto_5', 'colour 3, 5'), ('color_logical_weights_upto_21', ''),
@@ -80,6 +84,7 @@ SPEC = {
    ('toric_paths_upto7_spec', 'toric <= 7x7 all ordered pairs incl. wrap'), ('toric_plaquette_support_upto7', ''), ('tsyndrome_bit_maps_back', ''),
    ('rottoric_path_syndrome_all', 'ROTATED TORIC, ALL EVEN SIZES, arbitrary (wrapping) same-type indices: syndrome(path a b) = indicator{a, b} modulo the lattice'),
    ('rottoric_path_bsp_all', ''), ('rottoric_path_weight_le_all', 'rotated toric, all sizes: weight <= max(|dx|,|dy|)'),
+   ('rottoric_path_weight_all', 'ROTATED TORIC, ALL SIZES: weight of a path = max(|tx|, |ty|) of its translation'), ('rottoric_path_syndrome_weight_all', ''), ('rottoric_paths_all', 'rotated toric, all sizes, all integer index pairs: the full path property'),
    ('rottoric_paths_upto_8', 'rotated toric even <= 8x8 all ordered pairs'), ('rottoric_paths_wrapping_upto_6', ''),
    ('rt_translation_target', 'rotated toric, ALL SIZES: translation leads from a to b modulo the period'), ('rt_translation_defined', ''),
    ('rt_path_indices_defined', ''),
